@@ -4,7 +4,6 @@ CFG = dict(
     gen=[dict(spec="transform.json", out="Transform.lean")],
     theorems=["unweld_spec", "unweld_idem", "removeUnreferenced_spec", "flip_spec", "flip_flip", "flip_rejects",
               "toPointCloud_spec"],
-    harness_files=["c02c03_mesh.go"],
     streams=[dict(name="c03", n=dict(quick=400, thorough=12000))],
     trusted=T_COMMON + [
         "hand-written pure models PolyVerif/Model/{Mesh,MeshOps}.lean of modeling/mesh.go and modeling/meshops/*.go; tied to the "
